@@ -7,7 +7,10 @@ s = open(p).read()
 def run(t):
     return subprocess.run(['python3', os.path.join(HERE, 'tools', t)], capture_output=True, text=True).stdout
 import json as _json
-_checks = _json.load(open(os.path.join(HERE, 'tools', 'manifest_checks.json')))
+import sys as _sys
+_sys.path.insert(0, os.path.join(HERE, 'tools'))
+import load_checks
+_checks = load_checks.load()
 _asbuilt = ''.join(f"**{k}.** {v['text']}\n\n*Trusted / outside the model:* {v['note']}\n\n" for k, v in sorted(_checks.items()))
 blocks = {
  'ASBUILT': '## 4b. What each check proves and ties, as built (generated from tools/manifest_checks.json = MANIFEST level texts)\n\n'
